@@ -11,7 +11,8 @@ from jugverif import core
 
 LEVEL = 'proof'
 THEOREMS = ['Jug.C19.live_never_failed', 'Jug.C19.start_inv', 'Jug.C19.dead_eventually_failed', 'Jug.C19.terminates_parent_gone', 'Jug.C19.terminates_lock_gone',
-            'Jug.C19.constants_safe', 'Jug.C19.loop_matches', 'Jug.C19.exits_match', 'Jug.C19.helper_started_plainly', 'Jug.C19.round_live']
+            'Jug.C19.constants_safe', 'Jug.C19.loop_matches', 'Jug.C19.exits_match', 'Jug.C19.helper_started_plainly', 'Jug.C19.round_live',
+            'Jug.KALockProps.held_lock_has_helper', 'Jug.KALockProps.get_spec', 'Jug.KALockProps.let_go_stops_helper', 'Jug.KALockProps.no_orphans_without_interference']
 
 
 class Done(BaseException):
@@ -314,12 +315,12 @@ def check(run):
     quick = run.tier == 'quick'
     run.rule = ('the real monitor main() and the real is_failed() driven on a simulated clock: task durations from seconds to 10 days, random and adversarial round overshoots up to the bound of the theorem, '
                 'worker death at every offset of the refresh schedule, external lock removal, plus a real helper process started by the real lock with a relative jug directory (time.sleep scaled); '
-                'model state (mtime, exit round) compared with the real run; non-trivial = the run crossed at least one refresh; distinct by parameters')
+                'the lock object under every sequence of up to four owner / environment operations (helper replaced by a stand-in) vs Model/KeepAliveLock.lean; model state (mtime, exit round) compared with the real run; non-trivial = the run crossed at least one refresh; distinct by parameters')
     run.assumptions = ['a wake-up of the helper is late by at most 10 s and the helper starts within 59 s of get() (environment assumption, fixed independently of the constants of the code; today\'s constants would tolerate 24 s)',
                        'getppid()/kill(pid, 0) report the death of the worker at the next wake-up', 'a refresh in flight while the helper is being SIGKILLed is not modelled']
     run.trusted = ['Lean 4.33.0 kernel', 'axioms propext, Classical.choice, Quot.sound', 'harness/jugverif/props/c19.py (simulated clock; constants and call order are measured from the behaviour of the real loop)']
     k = extract()
-    run.lean(['JugModel.Props.C19', 'jugdrv'], theorems_expected=THEOREMS)
+    run.lean(['JugModel.Props.C19', 'JugModel.Props.KALock', 'jugdrv'], theorems_expected=THEOREMS)
     run.case(('fail-racing-refresh',), nontrivial=True)
     if not k.get('mark_survives_refresh', True):
         run.fail('failed-mark-lost-to-refresh', 'keep-alive lock: the holder calls fail() while its helper is in the middle of a refresh (the last utime lands as the helper is stopped): '
@@ -431,6 +432,13 @@ def check(run):
             run.fail('helper-recreates-lock', 'lock file removed at +%d s (cleanup / release by somebody else): the helper created it again - the task looks locked by a worker that does not hold it' % removal, {'kind': 'removal', 'removal': removal})
     # 4. the real helper process, started by the real lock with a relative jug directory
     Sim.close_all()
+    # 3b. the lock object's bookkeeping of its helper (who refers to whom), against Model/KeepAliveLock.lean
+    drv = core.Driver() if run.driver_ok else None
+    try:
+        lock_object_family(run, drv, quick)
+    finally:
+        if drv is not None:
+            drv.close()
     real_helper(run, quick)
     dead_worker_cleanup(run, E)
     if run.corr_disagreements == 0:
@@ -442,6 +450,111 @@ import time as _t
 _real = _t.sleep
 _t.sleep = lambda s: _real(s / %d.0)
 '''
+
+
+KA_OPS = ['get', 'release', 'fail', 'extRemove', 'helperNotices', 'otherTakes']
+
+
+class _FakeProc:
+    """stands for the helper process in the lock-object family: what the lock object does with its Popen, without processes"""
+    live = []
+
+    def __init__(self, argv, *a, **k):
+        self.argv = argv
+        self.state = 'running'
+        self.pid = 100000 + len(_FakeProc.live)
+        _FakeProc.live.append(self)
+
+    def kill(self):
+        self.state = 'killed'
+
+    def poll(self):
+        return None if self.state == 'running' else 0
+
+    def wait(self, *a, **k):
+        return 0
+
+
+def drive_lock_object(ops, d):
+    """the real file_keepalive_based_lock under a sequence of owner / environment operations; returns the observation after each one"""
+    import jug.backends.file_store as fs
+    saved = fs.Popen
+    fs.Popen = _FakeProc
+    _FakeProc.live = []
+    trace = []
+    try:
+        lk = fs.file_keepalive_based_lock(os.path.join(d, 'j.jugdata'), 'ab' * 20)
+        for op in ops:
+            ret = True
+            if op == 'get':
+                ret = bool(lk.get())
+            elif op == 'release':
+                lk.release()
+            elif op == 'fail':
+                ret = bool(lk.fail())
+            elif op == 'extRemove':
+                if os.path.exists(lk.fullname):
+                    os.unlink(lk.fullname)
+            elif op == 'helperNotices':
+                m = getattr(lk, 'monitor', None)
+                if not os.path.exists(lk.fullname) and isinstance(m, _FakeProc) and m.state == 'running':
+                    m.state = 'exited'
+            elif op == 'otherTakes':
+                if not os.path.exists(lk.fullname):
+                    os.makedirs(os.path.dirname(lk.fullname), exist_ok=True)
+                    open(lk.fullname, 'w').write('PID 1 on HOSTNAME elsewhere\n')
+            f = None
+            if os.path.exists(lk.fullname):
+                f = 'mine' if ('PID %d ' % os.getpid()) in open(lk.fullname).read() else 'other'
+            m = getattr(lk, 'monitor', None)
+            mon = 'none' if m is None else ('running' if m.state == 'running' else 'exited')
+            orphans = len([p for p in _FakeProc.live if p.state == 'running' and p is not m])
+            trace.append({'ret': ret, 'file': f, 'failed': bool(f is not None and lk.is_failed()), 'mon': mon, 'orphans': orphans})
+        return trace
+    finally:
+        fs.Popen = saved
+        _FakeProc.live = []
+
+
+def lock_object_family(run, drv, quick):
+    """every sequence of up to four operations (owner: get / release / fail; others: remove the file, take the free lock; the helper notices the missing file) and random longer ones on the real
+    keep-alive lock object, its helper replaced by a stand-in for Popen: state after every step = Model/KeepAliveLock.lean; and, independent of the model, the statement of
+    held_lock_has_helper on the real object: a lock it holds (its file is there, not marked failed) has a running helper it refers to"""
+    import itertools
+    rng = core.rng_for(run.seed, 'c19-lockobj')
+    seqs = [list(s) for r in (1, 2, 3, 4) for s in itertools.product(KA_OPS, repeat=r)]
+    for _ in range(150 if quick else 1500):
+        seqs.append([rng.choice(KA_OPS) for _ in range(rng.randint(5, 10))])
+    scratch = core.scratch_dir('jugverif-c19obj-')
+    bad_model = 0
+    try:
+        for i, ops in enumerate(seqs):
+            d = os.path.join(scratch, 's%d' % i)
+            os.makedirs(d)
+            real = drive_lock_object(ops, d)
+            core.rm_rf(d)
+            run.case(('lock-object', tuple(ops)), nontrivial=('get' in ops and len(set(ops)) > 1))
+            run.count('lock_object_sequences')
+            rp = {'kind': 'lock-object', 'ops': ops}
+            for k, st in enumerate(real):
+                if st['file'] == 'mine' and not st['failed'] and st['mon'] != 'running':
+                    run.fail('held-lock-without-helper', 'keep-alive lock object after %s: it holds the lock (its own lock file is there, not marked failed) but %s - nobody refreshes the lock of a live worker, it is '
+                             'reported failed after the expiry' % (ops[:k + 1], 'refers to no helper' if st['mon'] == 'none' else 'the helper it refers to has ended'), rp)
+                    break
+                if ops[k] in ('release', 'fail') and st['mon'] != 'none':
+                    run.fail('helper-survives-release', 'keep-alive lock object after %s: %s() left the object referring to a helper (%s)' % (ops[:k + 1], ops[k], st['mon']), rp)
+                    break
+            if drv is not None:
+                ans = drv.ask({'op': 'kalock', 'ops': ops})
+                run.corr_programs += 1
+                if ans.get('trace') != real:
+                    bad_model += 1
+                    if bad_model <= 3:
+                        kbad = next((k for k in range(len(real)) if k >= len(ans.get('trace', [])) or ans['trace'][k] != real[k]), 0)
+                        run.corr_disagreements += 1
+                        run.obligation('correspondence keep-alive lock object model=code', False, 'after %s: model %s, code %s' % (ops[:kbad + 1], (ans.get('trace') or [None] * (kbad + 1))[kbad], real[kbad]))
+    finally:
+        core.rm_rf(scratch)
 
 
 def real_helper(run, quick):
